@@ -72,8 +72,13 @@ Definition ranges (r : raw_cfg) : Prop :=
   /\ pn_le i0 (nt r)                                             (* num_tolerated_failed_amortized_computations >= 0 *)
   /\ NoDup (ignored r).                                          (* ignored dims are unique *)
 
+(* supported config types: no distributed config; a preconditioner config whose exact type is one of the two library
+   classes; no grafting config or one whose exact type is one of the four library classes.  An instance of a
+   user-defined subclass (gsub / pc_sub) is an unsupported type. *)
 Definition supported (r : raw_cfg) : Prop :=
-  dist r = DistNone /\ pc_kind r <> PCUnsupported /\ gkind r <> GraftUnsupported.
+  dist r = DistNone
+  /\ (pc_kind r <> PCUnsupported /\ pc_sub r = false)
+  /\ (gkind r = GraftNone \/ (gkind r <> GraftUnsupported /\ gsub r = false)).
 
 Definition documented_domain (r : raw_cfg) : Prop := ranges r /\ supported r.
 
@@ -340,26 +345,53 @@ Proof. destruct (ctor_spec r) as [[H _]|[H _]]; [left|right]; exact H. Qed.
 (* ---- the dispatch tail --------------------------------------------------------------------------------------- *)
 Definition resolved (r : raw_cfg) : cfg := {| c_beta3 := resolve_beta3 r; c_start := resolve_start r |}.
 
+Lemma pc_type_known_spec r : pc_type_known r = true <-> (pc_kind r <> PCUnsupported /\ pc_sub r = false).
+Proof.
+  unfold pc_type_known. destruct (pc_kind r), (pc_sub r); cbn; split; intros H;
+    try discriminate; try (split; [discriminate|reflexivity]); try reflexivity; destruct H as [A B]; congruence.
+Qed.
+
+Lemma graft_type_known_spec r :
+  graft_type_known r = true <-> (gkind r = GraftNone \/ (gkind r <> GraftUnsupported /\ gsub r = false)).
+Proof.
+  unfold graft_type_known. destruct (gkind r), (gsub r); cbn; split; intros H;
+    try discriminate; try reflexivity; try (left; reflexivity); try (right; split; [discriminate|reflexivity]);
+    destruct H as [A|[A B]]; congruence.
+Qed.
+
+Lemma supported_spec r :
+  supported r <-> (dist r = DistNone /\ pc_type_known r = true /\ graft_type_known r = true).
+Proof. unfold supported. rewrite pc_type_known_spec, graft_type_known_spec. tauto. Qed.
+
+Lemma supported_dec r : supported r \/ ~ supported r.
+Proof.
+  rewrite supported_spec. destruct (dist r); [|right; intros [A _]; discriminate].
+  destruct (pc_type_known r); [|right; intros (_ & A & _); discriminate].
+  destruct (graft_type_known r); [left; auto|right; intros (_ & _ & A); discriminate].
+Qed.
+
 Lemma dispatch_supported r : is_int64 (mpd r) = true -> supported r -> dispatch r = Ok (resolved r).
 Proof.
-  unfold dispatch, supported, resolved. intros Hm (Hd & Hp & Hg). rewrite Hd, Hm. cbn [negb].
-  destruct (pc_kind r); try congruence; destruct (gkind r); try congruence; reflexivity.
+  unfold dispatch, resolved. intros Hm S. apply supported_spec in S as (Hd & Hp & Hg).
+  rewrite Hd, Hm, Hp, Hg. reflexivity.
 Qed.
 
 Lemma dispatch_unsupported r : is_int64 (mpd r) = true -> ~ supported r -> dispatch r = RaiseNotImplemented.
 Proof.
-  unfold dispatch, supported. intros Hm Hn. rewrite Hm. cbn [negb].
+  unfold dispatch. intros Hm Hn. rewrite supported_spec in Hn. rewrite Hm. cbn [negb].
   destruct (dist r); [|reflexivity].
-  destruct (pc_kind r); try reflexivity; destruct (gkind r); try reflexivity;
-    exfalso; apply Hn; repeat split; discriminate.
+  destruct (pc_type_known r); cbn [negb]; [|reflexivity].
+  destruct (graft_type_known r); cbn [negb]; [|reflexivity].
+  exfalso. apply Hn. auto.
 Qed.
 
 Lemma dispatch_ok_supported r c : dispatch r = Ok c -> supported r /\ is_int64 (mpd r) = true /\ c = resolved r.
 Proof.
-  unfold dispatch, supported, resolved. destruct (dist r); [|discriminate].
+  unfold dispatch, resolved. rewrite supported_spec. destruct (dist r); [|discriminate].
   destruct (is_int64 (mpd r)); cbn [negb]; [|discriminate].
-  destruct (pc_kind r); try discriminate; destruct (gkind r); try discriminate;
-    intros H; injection H as <-; repeat split; discriminate.
+  destruct (pc_type_known r); cbn [negb]; [|discriminate].
+  destruct (graft_type_known r); cbn [negb]; [|discriminate].
+  intros H; injection H as <-. auto.
 Qed.
 
 (* ---- main theorems --------------------------------------------------------------------------------------------- *)
@@ -374,10 +406,7 @@ Proof.
   intros [Hm Hnt]. pose proof (ranges_iff_all_ok r Hnt) as HR.
   destruct (ctor_spec r) as [[Hok Hc]|[Hno Hc]].
   - apply HR in Hok.
-    assert (S : supported r \/ ~ supported r).
-    { unfold supported. destruct (dist r), (pc_kind r), (gkind r);
-        try (left; repeat split; discriminate); right; intros (A & B & C); congruence. }
-    destruct S as [S|S].
+    destruct (supported_dec r) as [S|S].
     + left. rewrite Hc. auto using dispatch_supported.
     + right; left. rewrite Hc. auto using dispatch_unsupported.
   - right; right. split; [|exact Hc]. intros H. apply Hno, HR, H.
@@ -414,7 +443,8 @@ Proof.
   destruct (ctor_spec r) as [[_ Hc]|[Hno _]]; [|tauto].
   rewrite Hc in C. unfold dispatch in C.
   destruct (dist r); [|discriminate]. destruct (is_int64 (mpd r)); cbn [negb] in C; [|discriminate].
-  destruct (pc_kind r); try discriminate; destruct (gkind r); discriminate.
+  destruct (pc_type_known r); cbn [negb] in C; [|discriminate].
+  destruct (graft_type_known r); cbn [negb] in C; discriminate.
 Qed.
 
 Theorem ctor_defaults r c :
@@ -462,14 +492,14 @@ Definition baseline_default : raw_cfg :=
      epsilon := PFlt (1 # 1000000000000); momentum := PFlt (0 # 1); dampening := PFlt (0 # 1);
      weight_decay := PFlt (0 # 1); mpd := PInt 1024; freq := PInt 1; start := PInt (-1);
      iro := IroScalar (PInt 0); gkind := GraftAdaGrad; geps := PFlt (1 # 10000000000); gb2 := PFlt (99 # 100);
-     pc_kind := PCShampoo; nt := PInt 3; ignored := []; dist := DistNone |}.
+     pc_kind := PCShampoo; nt := PInt 3; ignored := []; dist := DistNone; gsub := false; pc_sub := false |}.
 
 Definition set_mpd (r : raw_cfg) (v : pynum) : raw_cfg :=
   mk_raw (lr r) (beta1 r) (beta2 r) (beta3 r) (epsilon r) (momentum r) (dampening r) (weight_decay r) v (freq r)
-         (start r) (iro r) (gkind r) (geps r) (gb2 r) (pc_kind r) (nt r) (ignored r) (dist r).
+         (start r) (iro r) (gkind r) (geps r) (gb2 r) (pc_kind r) (nt r) (ignored r) (dist r) (gsub r) (pc_sub r).
 Definition set_nt (r : raw_cfg) (v : pynum) : raw_cfg :=
   mk_raw (lr r) (beta1 r) (beta2 r) (beta3 r) (epsilon r) (momentum r) (dampening r) (weight_decay r) (mpd r) (freq r)
-         (start r) (iro r) (gkind r) (geps r) (gb2 r) (pc_kind r) v (ignored r) (dist r).
+         (start r) (iro r) (gkind r) (geps r) (gb2 r) (pc_kind r) v (ignored r) (dist r) (gsub r) (pc_sub r).
 
 Lemma baseline_default_in_domain : documented_domain baseline_default /\ platform_typed baseline_default.
 Proof.
@@ -503,7 +533,7 @@ Definition baseline_soap : raw_cfg :=
      epsilon := PFlt (1 # 100000000); momentum := PFlt (1 # 2); dampening := PFlt (1 # 10);
      weight_decay := PFlt (1 # 1000); mpd := PInt 2; freq := PInt 10; start := PInt 20;
      iro := IroSeq [PInt 2; PInt 2; PInt 3]; gkind := GraftAdam; geps := PFlt (1 # 100000000); gb2 := PFlt (999 # 1000);
-     pc_kind := PCEigenvalueCorrected; nt := PInt 0; ignored := []; dist := DistNone |}.
+     pc_kind := PCEigenvalueCorrected; nt := PInt 0; ignored := []; dist := DistNone; gsub := false; pc_sub := false |}.
 
 Example ex_default_ok :
   ctor baseline_default = Ok {| c_beta3 := PFlt (9 # 10); c_start := PInt 1 |}.
@@ -521,10 +551,10 @@ Proof. apply (ctor_accepts_iff_documented _ ex_soap_typed). eexists. apply ex_so
 (* beta1 = 1.0 is outside: ValueError at the beta1 guard; lr = -0.0 / 0.0 is inside *)
 Definition set_beta1 (r : raw_cfg) (v : pynum) : raw_cfg :=
   mk_raw (lr r) v (beta2 r) (beta3 r) (epsilon r) (momentum r) (dampening r) (weight_decay r) (mpd r) (freq r)
-         (start r) (iro r) (gkind r) (geps r) (gb2 r) (pc_kind r) (nt r) (ignored r) (dist r).
+         (start r) (iro r) (gkind r) (geps r) (gb2 r) (pc_kind r) (nt r) (ignored r) (dist r) (gsub r) (pc_sub r).
 Definition set_dist (r : raw_cfg) (v : dist_t) : raw_cfg :=
   mk_raw (lr r) (beta1 r) (beta2 r) (beta3 r) (epsilon r) (momentum r) (dampening r) (weight_decay r) (mpd r) (freq r)
-         (start r) (iro r) (gkind r) (geps r) (gb2 r) (pc_kind r) (nt r) (ignored r) v.
+         (start r) (iro r) (gkind r) (geps r) (gb2 r) (pc_kind r) (nt r) (ignored r) v (gsub r) (pc_sub r).
 
 Example ex_beta1_one_rejected : ctor (set_beta1 baseline_soap fl1) = RaiseValueError GBeta1.
 Proof. vm_compute. reflexivity. Qed.
@@ -539,3 +569,27 @@ Proof.
   split; [|split; [intros [H _]; discriminate|vm_compute; reflexivity]].
   destruct ex_soap_in_domain as [R _]. exact R.
 Qed.
+
+(* a user-defined subclass of AdamGraftingConfig / of EigenvalueCorrectedShampooPreconditionerConfig with valid fields is
+   an unsupported config type: NotImplementedError; with an invalid inherited field its __post_init__ raises first *)
+Definition set_subs (r : raw_cfg) (g p : bool) : raw_cfg :=
+  mk_raw (lr r) (beta1 r) (beta2 r) (beta3 r) (epsilon r) (momentum r) (dampening r) (weight_decay r) (mpd r) (freq r)
+         (start r) (iro r) (gkind r) (geps r) (gb2 r) (pc_kind r) (nt r) (ignored r) (dist r) g p.
+Definition set_gb2 (r : raw_cfg) (v : pynum) : raw_cfg :=
+  mk_raw (lr r) (beta1 r) (beta2 r) (beta3 r) (epsilon r) (momentum r) (dampening r) (weight_decay r) (mpd r) (freq r)
+         (start r) (iro r) (gkind r) (geps r) v (pc_kind r) (nt r) (ignored r) (dist r) (gsub r) (pc_sub r).
+
+Example ex_graft_subclass_unsupported :
+  ranges (set_subs baseline_soap true false) /\ ~ supported (set_subs baseline_soap true false)
+  /\ ctor (set_subs baseline_soap true false) = RaiseNotImplemented.
+Proof.
+  split; [destruct ex_soap_in_domain as [R _]; exact R|].
+  split; [intros (_ & _ & [H|[_ H]]); discriminate|vm_compute; reflexivity].
+Qed.
+
+Example ex_pc_subclass_unsupported : ctor (set_subs baseline_soap false true) = RaiseNotImplemented.
+Proof. vm_compute. reflexivity. Qed.
+
+Example ex_graft_subclass_bad_field :
+  ctor (set_gb2 (set_subs baseline_soap true false) (PFlt (0 # 1))) = RaiseValueError GGraftBeta2.
+Proof. vm_compute. reflexivity. Qed.
